@@ -505,14 +505,17 @@ def run_check(sim, prop, tier, verif_seed, n_runs=None, seconds=None, level="exp
     by_class = {}
     for r in viol_runs:
         for v in r["violations"]:
-            by_class.setdefault(v["class"], []).append((r, v))
+            # a run whose signature does not match the known finding its class-mates match is its own group
+            ent = match_known(prop, v, known)
+            by_class.setdefault((v["class"], ent["id"] if ent else None), []).append((r, v))
     reported = []
     known_hits = {}
     os.makedirs(os.path.join(OUT, "replays"), exist_ok=True)
-    for vclass in sorted(by_class):
-        r, v = by_class[vclass][0]
+    for gkey in sorted(by_class, key=lambda k: (k[0], str(k[1]))):
+        vclass = gkey[0]
+        r, v = by_class[gkey][0]
         eprint("[%s] violation class %s in %d runs; minimising run %d (seed %d)"
-               % (prop, vclass, len(by_class[vclass]), r["idx"], r["seed"]))
+               % (prop, vclass, len(by_class[gkey]), r["idx"], r["seed"]))
         n_min = len(reported) + len(known_hits)
         if n_min < 3:
             st, m = fork_call(_minimise_entry, (sim, prop, r["trace"], vclass, 600), timeout=1800)
@@ -526,6 +529,11 @@ def run_check(sim, prop, tier, verif_seed, n_runs=None, seconds=None, level="exp
             harness_errors.append("minimised trace lost violation %s" % vclass)
             continue
         ent = match_known(prop, mv[0], known)
+        if (ent["id"] if ent else None) != gkey[1]:
+            # minimisation must not turn an unknown violation into a known one (or vice versa)
+            m = {"trace": r["trace"], "violations": r["violations"], "spent": 0, "digest": r["digest"]}
+            mv = [x for x in r["violations"] if x["class"] == vclass]
+            ent = match_known(prop, mv[0], known)
         path = os.path.join(OUT, "replays", "%s-%d.json" % (prop, r["seed"]))
         if ent is None:
             k = 0
@@ -552,9 +560,9 @@ def run_check(sim, prop, tier, verif_seed, n_runs=None, seconds=None, level="exp
             continue
         if ent is not None:
             known_hits.setdefault(ent["id"], (ent, 0, path))
-            known_hits[ent["id"]] = (ent, known_hits[ent["id"]][1] + len(by_class[vclass]), path)
+            known_hits[ent["id"]] = (ent, known_hits[ent["id"]][1] + len(by_class[gkey]), path)
         else:
-            reported.append((vclass, mv[0], path, len(by_class[vclass])))
+            reported.append((vclass, mv[0], path, len(by_class[gkey])))
     for kid, (ent, cnt, path) in sorted(known_hits.items()):
         print("KNOWN-FINDING: property=%s %s [%s; %d runs; replay=%s]"
               % (prop, ent["what"], kid, cnt, os.path.relpath(path, OUT)))
@@ -581,7 +589,7 @@ def run_check(sim, prop, tier, verif_seed, n_runs=None, seconds=None, level="exp
         "selftest": selftest_info,
         "stats": fin,
         "violating_runs": len(viol_runs),
-        "violation_classes": sorted(by_class),
+        "violation_classes": sorted(set(k[0] for k in by_class)),
         "known_findings_hit": {k: v[1] for k, v in known_hits.items()},
         "harness_errors": harness_errors[:20],
         "real_components": sim.real_components(prop),
@@ -589,6 +597,13 @@ def run_check(sim, prop, tier, verif_seed, n_runs=None, seconds=None, level="exp
         "exhaustive": False,
     }
     cov.update(sim.coverage_extra(prop, fin))
+    try:
+        xcov, xerr = sim.extra_checks(prop, tier, verif_seed)
+    except Exception:
+        xcov, xerr = {}, ["extra_checks crashed: " + traceback.format_exc()]
+    cov.update(xcov)
+    harness_errors += xerr
+    cov["harness_errors"] = harness_errors[:20]
     ev = {"property_id": prop, "tier": tier, "seed": verif_seed, "level": level,
           "coverage": cov, "assumptions": sim.assumptions(prop), "wall_s": round(wall, 2),
           "violations": len(reported)}
